@@ -17,7 +17,11 @@ func StaticCallee(ci ssa.CallInstruction) *ssa.Function {
 	if ci == nil {
 		return nil
 	}
-	return ci.Common().StaticCallee()
+	if f := ci.Common().StaticCallee(); f != nil {
+		return f
+	}
+	// a function-valued parameter bound to the function its one call site passes (BindParam)
+	return BoundCallee(ci)
 }
 
 // CalleeObj returns the *types.Func called: the static callee's object, or the
